@@ -2,4 +2,251 @@
 import MelModel.ApplyTx
 import MelModel.VM.Std
 namespace Mel
+open Mel.Gen Mel.VM
+
+/-! ## monadic folds -/
+
+theorem forM'_ok_mem {α} (f : α → Outcome Unit) : ∀ (l : List α), Outcome.forM' f l = .ok () →
+    ∀ a ∈ l, f a = .ok ()
+  | [], _, a, ha => by simp at ha
+  | x :: xs, h, a, ha => by
+    rw [Outcome.forM'] at h
+    cases hx : f x with
+    | ok u =>
+      rw [hx] at h
+      simp only at h
+      rcases List.mem_cons.mp ha with rfl | ha
+      · exact hx
+      · exact forM'_ok_mem f xs h a ha
+    | reject e => rw [hx] at h; simp at h
+    | crash s => rw [hx] at h; simp at h
+
+theorem foldlM'_ok_zipIdx {α β} (f : β → α × Nat → Outcome β) :
+    ∀ (l : List α) (k : Nat) (b b' : β), Outcome.foldlM' f b (l.zipIdx k) = .ok b' →
+    ∀ i (hi : i < l.length), ∃ acc acc', f acc (l[i], k + i) = .ok acc'
+  | [], _, _, _, _, i, hi => by simp at hi
+  | x :: xs, k, b, b', h, i, hi => by
+    rw [List.zipIdx_cons, Outcome.foldlM'] at h
+    cases hx : f b (x, k) with
+    | ok b1 =>
+      rw [hx] at h
+      simp only at h
+      cases i with
+      | zero => exact ⟨b, b1, by simpa using hx⟩
+      | succ j =>
+        have := foldlM'_ok_zipIdx f xs (k + 1) b1 b' h j (by simpa using hi)
+        obtain ⟨acc, acc', hacc⟩ := this
+        refine ⟨acc, acc', ?_⟩
+        have e : k + (j + 1) = k + 1 + j := by omega
+        simpa [e] using hacc
+    | reject e => rw [hx] at h; simp at h
+    | crash s => rw [hx] at h; simp at h
+
+/-! ## the script gate -/
+
+theorem validateTxScripts_ok_iff (env : Env) (i : Nat) (id : CoinID) (tx : Tx) (coin : CoinDataHeight)
+    (lh : Header) :
+    validateTxScripts env i id tx coin lh = .ok () ↔
+    ∃ bytes ops v, tx.findCovenant coin.coinData.covhash = some bytes ∧ decodeAll bytes = some ops ∧
+      execute env.vm ops tx
+        (some { parentCoinID := id, parentCdh := coin, spenderIndex := i % 256, lastHeader := lh }) = some v ∧
+      v.intoBool = true := by
+  unfold validateTxScripts
+  cases hf : tx.findCovenant coin.coinData.covhash with
+  | none => simp
+  | some bytes =>
+    simp only [Option.some.injEq, exists_and_left, exists_eq_left']
+    cases hd : decodeAll bytes with
+    | none => simp
+    | some ops =>
+      simp only [Option.some.injEq, exists_eq_left']
+      cases he : execute env.vm ops tx
+          (some { parentCoinID := id, parentCdh := coin, spenderIndex := i % 256, lastHeader := lh }) with
+      | none => simp
+      | some v => cases hb : v.intoBool <;> simp [hb]
+
+/-- an accepted transaction passed the script check of every one of its inputs, each at its own position -/
+theorem checkTxValidity_ok_input (env : Env) (s : State) (lh : Header) (tx : Tx) (rel : Relevant)
+    (newStakes : AList Hash StakeDoc) (h : checkTxValidity env s lh tx rel newStakes = .ok ())
+    (i : Nat) (hi : i < tx.inputs.length) :
+    ∃ coin, rel.get tx.inputs[i] = some coin ∧
+      validateTxScripts env i tx.inputs[i] tx coin lh = .ok () := by
+  unfold checkTxValidity at h
+  simp only at h
+  generalize hf : (fun (acc : AList Denom Nat) (e : CoinID × Nat) => _) = f at h
+  cases hgo : Outcome.foldlM' f [] tx.inputs.zipIdx with
+  | reject e => rw [hgo] at h; simp [Outcome.bind] at h
+  | crash c => rw [hgo] at h; simp [Outcome.bind] at h
+  | ok inCoins =>
+    obtain ⟨acc, acc', hstep⟩ := foldlM'_ok_zipIdx f tx.inputs 0 [] inCoins hgo i hi
+    subst hf
+    simp only [Nat.zero_add] at hstep
+    split at hstep
+    · simp at hstep
+    · cases hget : rel.get tx.inputs[i] with
+      | none => rw [hget] at hstep; simp at hstep
+      | some coin =>
+        rw [hget] at hstep
+        simp only at hstep
+        refine ⟨coin, rfl, ?_⟩
+        cases hv : validateTxScripts env i tx.inputs[i] tx coin lh with
+        | ok u => rfl
+        | reject e => rw [hv] at hstep; simp [Outcome.bind] at hstep
+        | crash c => rw [hv] at hstep; simp [Outcome.bind] at hstep
+
+/-! ## symbolic execution of the standard covenants -/
+
+theorem runFuel_succ (o : Oracles) (ops : List Op) (fuel : Nat) (st : Exec) (n : Nat)
+    (h : st.pc < ops.length) :
+    runFuel o ops (fuel + 1) st n =
+      match step o ops st with
+      | none => (none, n + 1)
+      | some st' => runFuel o ops fuel st' (n + 1) := by
+  rw [runFuel, if_pos h]
+  cases step o ops st <;> rfl
+
+theorem runFuel_done (o : Oracles) (ops : List Op) (fuel : Nat) (st : Exec) (n : Nat)
+    (h : ¬ st.pc < ops.length) :
+    runFuel o ops (fuel + 1) st n = (st.stack.head?, n) := by
+  rw [runFuel, if_neg h]
+
+/-- what the standard covenants compute when they look at signature slot `k` -/
+def stdResult (o : Oracles) (pk : Bytes) (tx : Tx) (k : Nat) : Option Value :=
+  match tx.sigs[k]? with
+  | none => none
+  | some sig => some (.ofBool (if sig.length = 64 then o.sigOk pk tx.hash sig else false))
+
+theorem weightU_stdNew (pk : Bytes) : weightU (stdEd25519New pk) = 166 := by
+  simp [weightU, weightUF, opWeight, stdEd25519New, wLoadImm, wPushI, wVRef, wPushB, wSigEOkBase]
+
+theorem weightU_stdLegacy (pk : Bytes) : weightU (stdEd25519Legacy pk) = 163 := by
+  simp [weightU, weightUF, opWeight, stdEd25519Legacy, wLoadImm, wPushI, wVRef, wPushB, wSigEOkBase]
+
+/-- the seven instructions shared by the two standard covenants -/
+def stdTail (pk : Bytes) : List Op :=
+  [.pushi 6, .loadimm (u16 HADDR_SPENDER_TX), .vref, .vref, .pushb pk, .loadimm 1, .sigeok 32]
+
+theorem std_tail (o : Oracles) (pk : Bytes) (hpk : pk.length = 32) (tx : Tx) (hh : tx.hash.length ≤ 32)
+    (op0 : Op) (H : Heap) (h0 : H.get 0 = some (valOfTx tx)) (h1 : H.get 1 = some (.bytes tx.hash))
+    (k : Nat) (hk : k ≤ 65535) (f n : Nat) :
+    (runFuel o (op0 :: stdTail pk) (f + 8) ⟨[.int (BitVec.ofNat 256 k)], H, 1, []⟩ n).1 =
+      stdResult o pk tx k := by
+  have hkk : (BitVec.ofNat 256 k).toNat = k := by
+    simp [BitVec.toNat_ofNat]; omega
+  generalize hkv : BitVec.ofNat 256 k = kk at hkk
+  have hu0 : (u16 HADDR_SPENDER_TX).toNat = 0 := by decide
+  have hu1 : (1 : UInt16).toNat = 1 := by decide
+  have hu32 : (32 : UInt16).toNat = 32 := by decide
+  have e2 : step o (op0 :: stdTail pk) ⟨[.int kk], H, 1, []⟩ = some ⟨[.int 6, .int kk], H, 2, []⟩ := by
+    simp [step, stdTail, execOp, updatePc]
+  have e3 : step o (op0 :: stdTail pk) ⟨[.int 6, .int kk], H, 2, []⟩ =
+      some ⟨[valOfTx tx, .int 6, .int kk], H, 3, []⟩ := by
+    simp [step, stdTail, execOp, updatePc, hu0, h0]
+  have e4 : step o (op0 :: stdTail pk) ⟨[valOfTx tx, .int 6, .int kk], H, 3, []⟩ =
+      some ⟨[.vec (tx.sigs.map .bytes), .int kk], H, 4, []⟩ := by
+    simp [step, stdTail, execOp, updatePc, binop, valOfTx, Value.intoU16, Value.intoVec]
+  have e5 : step o (op0 :: stdTail pk) ⟨[.vec (tx.sigs.map .bytes), .int kk], H, 4, []⟩ =
+      (tx.sigs[k]?).map fun sig => ⟨[.bytes sig], H, 5, []⟩ := by
+    have hk' : ¬ 65535 < k := by omega
+    cases hs : tx.sigs[k]? <;>
+      simp [step, stdTail, execOp, updatePc, binop, Value.intoU16, Value.intoVec, hkk, hk', hs]
+  rw [show f + 8 = (f + 7) + 1 from rfl, runFuel_succ _ _ _ _ _ (by simp [stdTail]), e2]
+  simp only
+  rw [show f + 7 = (f + 6) + 1 from rfl, runFuel_succ _ _ _ _ _ (by simp [stdTail]), e3]
+  simp only
+  rw [show f + 6 = (f + 5) + 1 from rfl, runFuel_succ _ _ _ _ _ (by simp [stdTail]), e4]
+  simp only
+  rw [show f + 5 = (f + 4) + 1 from rfl, runFuel_succ _ _ _ _ _ (by simp [stdTail]), e5]
+  unfold stdResult
+  cases hs : tx.sigs[k]? with
+  | none => simp
+  | some sig =>
+    have e6 : step o (op0 :: stdTail pk) ⟨[.bytes sig], H, 5, []⟩ =
+        some ⟨[.bytes pk, .bytes sig], H, 6, []⟩ := by
+      simp [step, stdTail, execOp, updatePc]
+    have e7 : step o (op0 :: stdTail pk) ⟨[.bytes pk, .bytes sig], H, 6, []⟩ =
+        some ⟨[.bytes tx.hash, .bytes pk, .bytes sig], H, 7, []⟩ := by
+      simp [step, stdTail, execOp, updatePc, hu1, h1]
+    have e8 : step o (op0 :: stdTail pk) ⟨[.bytes tx.hash, .bytes pk, .bytes sig], H, 7, []⟩ =
+        some ⟨[.ofBool (if sig.length = 64 then o.sigOk pk tx.hash sig else false)], H, 8, []⟩ := by
+      have hm : ¬ 32 < tx.hash.length := by omega
+      by_cases h64 : sig.length = 64
+      · simp [step, stdTail, execOp, updatePc, triop, hu32, hpk, hm, h64]
+      · by_cases hgt : 64 < sig.length <;>
+          simp [step, stdTail, execOp, updatePc, triop, hu32, hpk, hm, h64, hgt]
+    simp only [Option.map_some]
+    rw [show f + 4 = (f + 3) + 1 from rfl, runFuel_succ _ _ _ _ _ (by simp [stdTail]), e6]
+    simp only
+    rw [show f + 3 = (f + 2) + 1 from rfl, runFuel_succ _ _ _ _ _ (by simp [stdTail]), e7]
+    simp only
+    rw [show f + 2 = (f + 1) + 1 from rfl, runFuel_succ _ _ _ _ _ (by simp [stdTail]), e8]
+    simp only
+    rw [runFuel_done _ _ _ _ _ (by simp [stdTail])]
+    simp
+
+theorem execute_stdNew (o : Oracles) (pk : Bytes) (hpk : pk.length = 32) (tx : Tx) (e : CovEnv)
+    (hh : tx.hash.length ≤ 32) (hidx : e.spenderIndex < 256) :
+    execute o (stdEd25519New pk) tx (some e) = stdResult o pk tx e.spenderIndex := by
+  unfold execute run
+  rw [weightU_stdNew]
+  have hops : stdEd25519New pk = .loadimm (u16 HADDR_SPENDER_INDEX) :: stdTail pk := rfl
+  have hu9 : (u16 HADDR_SPENDER_INDEX).toNat = 9 := by decide
+  have h0 : (heapOfEnv tx (some e)).get 0 = some (valOfTx tx) := by
+    simp [heapOfEnv, Heap.get, HADDR_SPENDER_TX, HADDR_SPENDER_INDEX, HADDR_SPENDER_TXHASH,
+      HADDR_PARENT_TXHASH, HADDR_PARENT_INDEX, HADDR_SELF_HASH, HADDR_PARENT_VALUE, HADDR_PARENT_DENOM,
+      HADDR_PARENT_ADDITIONAL_DATA, HADDR_PARENT_HEIGHT, HADDR_LAST_HEADER]
+  have h1 : (heapOfEnv tx (some e)).get 1 = some (.bytes tx.hash) := by
+    simp [heapOfEnv, Heap.get, HADDR_SPENDER_TX, HADDR_SPENDER_INDEX, HADDR_SPENDER_TXHASH,
+      HADDR_PARENT_TXHASH, HADDR_PARENT_INDEX, HADDR_SELF_HASH, HADDR_PARENT_VALUE, HADDR_PARENT_DENOM,
+      HADDR_PARENT_ADDITIONAL_DATA, HADDR_PARENT_HEIGHT, HADDR_LAST_HEADER]
+  have h9 : (heapOfEnv tx (some e)).get 9 = some (.ofNat e.spenderIndex) := by
+    simp [heapOfEnv, Heap.get, HADDR_SPENDER_TX, HADDR_SPENDER_INDEX, HADDR_SPENDER_TXHASH,
+      HADDR_PARENT_TXHASH, HADDR_PARENT_INDEX, HADDR_SELF_HASH, HADDR_PARENT_VALUE, HADDR_PARENT_DENOM,
+      HADDR_PARENT_ADDITIONAL_DATA, HADDR_PARENT_HEIGHT, HADDR_LAST_HEADER]
+  have e1 : step o (stdEd25519New pk) (initExec (heapOfEnv tx (some e))) =
+      some ⟨[.int (BitVec.ofNat 256 e.spenderIndex)], heapOfEnv tx (some e), 1, []⟩ := by
+    rw [hops]
+    simp [step, initExec, execOp, updatePc, hu9, h9, Value.ofNat]
+  rw [runFuel_succ _ _ _ _ _ (by simp [initExec, stdEd25519New]), e1]
+  simp only
+  rw [hops]
+  exact std_tail o pk hpk tx hh _ _ h0 h1 _ (by omega) 158 _
+
+theorem execute_stdLegacy (o : Oracles) (pk : Bytes) (hpk : pk.length = 32) (tx : Tx) (e : Option CovEnv)
+    (hh : tx.hash.length ≤ 32) :
+    execute o (stdEd25519Legacy pk) tx e = stdResult o pk tx 0 := by
+  unfold execute run
+  rw [weightU_stdLegacy]
+  have hops : stdEd25519Legacy pk = .pushi 0 :: stdTail pk := rfl
+  have h0 : (heapOfEnv tx e).get 0 = some (valOfTx tx) := by
+    cases e <;>
+    simp [heapOfEnv, Heap.get, HADDR_SPENDER_TX, HADDR_SPENDER_INDEX, HADDR_SPENDER_TXHASH,
+      HADDR_PARENT_TXHASH, HADDR_PARENT_INDEX, HADDR_SELF_HASH, HADDR_PARENT_VALUE, HADDR_PARENT_DENOM,
+      HADDR_PARENT_ADDITIONAL_DATA, HADDR_PARENT_HEIGHT, HADDR_LAST_HEADER]
+  have h1 : (heapOfEnv tx e).get 1 = some (.bytes tx.hash) := by
+    cases e <;>
+    simp [heapOfEnv, Heap.get, HADDR_SPENDER_TX, HADDR_SPENDER_INDEX, HADDR_SPENDER_TXHASH,
+      HADDR_PARENT_TXHASH, HADDR_PARENT_INDEX, HADDR_SELF_HASH, HADDR_PARENT_VALUE, HADDR_PARENT_DENOM,
+      HADDR_PARENT_ADDITIONAL_DATA, HADDR_PARENT_HEIGHT, HADDR_LAST_HEADER]
+  have e1 : step o (stdEd25519Legacy pk) (initExec (heapOfEnv tx e)) =
+      some ⟨[.int (BitVec.ofNat 256 0)], heapOfEnv tx e, 1, []⟩ := by
+    rw [hops]
+    simp [step, initExec, execOp, updatePc]
+  rw [runFuel_succ _ _ _ _ _ (by simp [initExec, stdEd25519Legacy]), e1]
+  simp only
+  rw [hops]
+  exact std_tail o pk hpk tx hh _ _ h0 h1 0 (by omega) 155 _
+
+theorem ofBool_intoBool (b : Bool) : (Value.ofBool b).intoBool = b := by
+  cases b <;> simp [Value.ofBool, Value.intoBool]
+
+theorem stdResult_iff (o : Oracles) (pk : Bytes) (tx : Tx) (k : Nat) :
+    (∃ v, stdResult o pk tx k = some v ∧ v.intoBool = true) ↔
+    (∃ sig, tx.sigs[k]? = some sig ∧ sig.length = 64 ∧ o.sigOk pk tx.hash sig = true) := by
+  unfold stdResult
+  cases hs : tx.sigs[k]? with
+  | none => simp
+  | some sig =>
+    by_cases h64 : sig.length = 64 <;> simp [ofBool_intoBool, h64]
+
 end Mel
